@@ -89,7 +89,10 @@ fn prop(model: &Model, ix: &Index, tape: &[u32], st: &mut Stats) -> Result<(), S
     let mut starts: Vec<usize> = Vec::new();
     let mut ends: Vec<usize> = Vec::new();
     let mut stream: Vec<u8> = Vec::new();
+    let mut expected_seq: Vec<(vcore::spec::RetTy, vcore::rval::RVal, usize, usize)> = Vec::new();
+    let mut msgs_done = 0usize;
     for m in &msgs {
+        let mut pending_unit_idx: Vec<usize> = Vec::new();
         let kinds: Vec<gen::UnitKind> =
             m.units.iter().map(|u| if u.raw.is_some() { gen::UnitKind::Syntax } else { gen::UnitKind::Normal }).collect();
         let mut bytes = Vec::new();
@@ -103,6 +106,7 @@ fn prop(model: &Model, ix: &Index, tape: &[u32], st: &mut Stats) -> Result<(), S
             // response of this unit alone, predicted in its path context
             let single = Message::new(vec![u.clone()]);
             let mut r = Vec::new();
+            let mut typed: Option<(vcore::spec::RetTy, vcore::rval::RVal)> = None;
             if dead {
                 // behind a faulty unit: commands only, no answer whether executed or not
             }
@@ -121,6 +125,7 @@ fn prop(model: &Model, ix: &Index, tape: &[u32], st: &mut Stats) -> Result<(), S
                     if ok && d.is_query() && env.fail[id].is_none() {
                         vcore::rval::encode(&d.ret, &env.rets[id], &mut r);
                         r.push(b'\n');
+                        typed = Some((d.ret.clone(), env.rets[id].clone()));
                     }
                 }
                 if let Some(c) = res.new_ctx {
@@ -130,17 +135,23 @@ fn prop(model: &Model, ix: &Index, tape: &[u32], st: &mut Stats) -> Result<(), S
             let _ = single;
             bytes.extend_from_slice(&r);
             units_resp.push(r);
+            if let Some(tv) = typed {
+                // (type, value, message index, offset at which the unit is completely delivered)
+                expected_seq.push((tv.0, tv.1, msgs_done, 0usize));
+                pending_unit_idx.push(ui);
+            }
             let mut tmp = Vec::new();
             u.render(&mut tmp);
             off += tmp.len() + 1; // the unit and its ';' or (for the last unit) the start of the tail
             uends.push(off);
         }
+        let _ = &pending_unit_idx;
         // cross-check with the message-level prediction
         let pred = gen::predict(model, std::slice::from_ref(m), Some(&[kinds]), &env);
         let mut bytes2 = Vec::new();
         for p in &pred {
-            if let PEv::Response(b) = p {
-                bytes2.extend_from_slice(b);
+            if let PEv::Response { canonical, .. } = p {
+                bytes2.extend_from_slice(canonical);
             }
         }
         if bytes != bytes2 {
@@ -153,8 +164,17 @@ fn prop(model: &Model, ix: &Index, tape: &[u32], st: &mut Stats) -> Result<(), S
         m.render(&mut stream);
         let end = stream.len();
         // unit ends can never exceed the message end
-        unit_ends.push(uends.into_iter().map(|e| e.min(end)).collect());
+        let ue: Vec<usize> = uends.into_iter().map(|e| e.min(end)).collect();
+        {
+            let mut k = 0;
+            for e in expected_seq.iter_mut().filter(|e| e.2 == msgs_done) {
+                e.3 = ue[pending_unit_idx[k]];
+                k += 1;
+            }
+        }
+        unit_ends.push(ue);
         ends.push(end);
+        msgs_done += 1;
     }
     let need = msgs
         .iter()
@@ -200,39 +220,32 @@ fn prop(model: &Model, ix: &Index, tape: &[u32], st: &mut Stats) -> Result<(), S
                 // everything delivered completely by earlier reads must have been answered and flushed;
                 // of the message in progress (possible with payload newlines) the answers of units that
                 // are already delivered may have been written too - nothing else, ever
-                let mut expected: Vec<u8> = Vec::new();
-                let mut in_progress: Option<usize> = None;
-                for (i, end) in ends.iter().enumerate() {
-                    if *end <= delivered {
-                        expected.extend_from_slice(&per_msg[i]);
+                // `written` must consist of exactly the first k expected answers (canonical or any
+                // other encoding that decodes to the value), with  must <= k <= may
+                let typed: Vec<(vcore::spec::RetTy, vcore::rval::RVal)> =
+                    expected_seq.iter().map(|e| (e.0.clone(), e.1.clone())).collect();
+                let must = expected_seq.iter().filter(|e| ends[e.2] <= delivered).count();
+                let may = expected_seq.iter().filter(|e| ends[e.2] <= delivered || (starts[e.2] < delivered && e.3 <= delivered)).count();
+                match vcore::decode::match_response_sequence(&typed, &written) {
+                    Ok(k) if k >= must && k <= may => {}
+                    Ok(k) => {
+                        return Err(ctx(format!(
+                            "when the transport was asked for more input after {} bytes, {} answers had been written ('{}') but the completely delivered messages call for {} (at most {} counting delivered units of the message in progress)",
+                            delivered,
+                            k,
+                            esc(&written),
+                            must,
+                            may
+                        )));
                     }
-                    else if starts[i] < delivered && in_progress.is_none() {
-                        in_progress = Some(i);
+                    Err(e) => {
+                        return Err(ctx(format!(
+                            "after {} bytes of input the transport had received '{}', which is not a sequence of the expected answers: {}",
+                            delivered,
+                            esc(&written),
+                            e
+                        )));
                     }
-                }
-                let mut ok = written == expected;
-                if !ok {
-                    if let Some(i) = in_progress {
-                        let mut cand = expected.clone();
-                        for (ui, r) in per_unit[i].iter().enumerate() {
-                            if unit_ends[i][ui] > delivered {
-                                break;
-                            }
-                            cand.extend_from_slice(r);
-                            if written == cand {
-                                ok = true;
-                                break;
-                            }
-                        }
-                    }
-                }
-                if !ok {
-                    return Err(ctx(format!(
-                        "when the transport was asked for more input after {} bytes, '{}' had been written but the completely delivered messages call for '{}' (plus, at most, answers of already delivered units of the message in progress)",
-                        delivered,
-                        esc(&written),
-                        esc(&expected)
-                    )));
                 }
                 if dirty {
                     return Err(ctx(format!("a response was written but not flushed before the next read (after {} bytes)", delivered)));
